@@ -316,10 +316,10 @@ Proof.
   inversion H; subst. destruct I. constructor; cbn; auto; discriminate.
 Qed.
 
-Lemma set_remote_inv : forall p ty secs e p' out fx,
-  set_remote p ty secs e = (p', out, fx) -> Inv p -> Inv p'.
+Lemma set_remote_apply_inv : forall p ty secs e p' out fx,
+  set_remote_apply p ty secs e = (p', out, fx) -> Inv p -> Inv p'.
 Proof.
-  intros p ty secs e p' out fx H I. unfold set_remote in H.
+  intros p ty secs e p' out fx H I. unfold set_remote_apply in H.
   destruct (p_closed p); [inversion H; subst; auto|].
   destruct ty.
   - destruct (sig_eqb (p_sig p) Stable); [|inversion H; subst; auto].
@@ -330,6 +330,16 @@ Proof.
       intros [X|X]; discriminate.
   - destruct (sig_eqb (p_sig p) HaveLocalOffer); [|inversion H; subst; auto].
     eapply set_remote_nonanswer_inv; eauto. discriminate.
+Qed.
+
+Lemma set_remote_inv : forall p ty secs e p' out fx,
+  set_remote p ty secs e = (p', out, fx) -> Inv p -> Inv p'.
+Proof.
+  intros p ty secs e p' out fx H I. unfold set_remote in H.
+  destruct (p_closed p); [inversion H; subst; auto|].
+  destruct (_ && _); [inversion H; subst; auto|].
+  destruct secs as [|m rest]; [inversion H; subst; auto|].
+  eapply set_remote_apply_inv; eauto.
 Qed.
 
 Lemma step_inv : forall p o p' out fx, step p o = (p', out, fx) -> Inv p -> Inv p'.
@@ -765,11 +775,11 @@ Proof.
   destruct (remote_offer_loop (d_secs d) _ _ 0) as [[l1 added] ok]. inversion H; subst. cbn. auto.
 Qed.
 
-Lemma set_remote_fx : forall p ty secs e p' out fx, set_remote p ty secs e = (p', out, fx) ->
+Lemma set_remote_apply_fx : forall p ty secs e p' out fx, set_remote_apply p ty secs e = (p', out, fx) ->
   (fx_to_stable fx = false /\ (p_sig p' <> Stable \/ (p' = p /\ fx = fx_none)))
   \/ (fx = {| fx_triggers := 1; fx_to_stable := true |} /\ p_sig p' = Stable /\ p_closed p' = false).
 Proof.
-  intros p ty secs e p' out fx H. unfold set_remote in H.
+  intros p ty secs e p' out fx H. unfold set_remote_apply in H.
   destruct (p_closed p) eqn:Ec; [inversion H; auto|].
   destruct ty.
   - destruct (sig_eqb (p_sig p) Stable); [|inversion H; auto].
@@ -781,6 +791,17 @@ Proof.
   - destruct (sig_eqb (p_sig p) HaveLocalOffer); [|inversion H; auto].
     apply set_remote_nonanswer_fx in H. destruct H as [H1 [H2|H2]]; left; split; auto.
     left. rewrite H2. discriminate.
+Qed.
+
+Lemma set_remote_fx : forall p ty secs e p' out fx, set_remote p ty secs e = (p', out, fx) ->
+  (fx_to_stable fx = false /\ (p_sig p' <> Stable \/ (p' = p /\ fx = fx_none)))
+  \/ (fx = {| fx_triggers := 1; fx_to_stable := true |} /\ p_sig p' = Stable /\ p_closed p' = false).
+Proof.
+  intros p ty secs e p' out fx H. unfold set_remote in H.
+  destruct (p_closed p) eqn:Ec; [inversion H; auto|].
+  destruct (_ && _); [inversion H; auto|].
+  destruct secs as [|m rest]; [inversion H; auto|].
+  eapply set_remote_apply_fx; eauto.
 Qed.
 
 (* the local media calls and Close never report a transition into stable *)
